@@ -101,6 +101,15 @@ def l2_monitor(spec, rec, obs):
     for r in rec.log:
         if r["kind"] == "enter" and r["step"] in acc and r["ev"] not in acc[r["step"]]:
             out.append("step %s entered with %s which it does not accept" % (r["step"], r["ev"]))
+    # an addressed event (a StepFailedEvent is addressed to the handler that owns the failed step) goes to that step only
+    if spec.get("handlers"):
+        from props.C08 import expected_owner
+        for r in rec.log:
+            if r["kind"] == "enter" and r.get("failed_step") is not None and r["step"] in spec["handlers"]:
+                own = expected_owner(spec, r["failed_step"])
+                if own != r["step"]:
+                    out.append("StepFailedEvent of step %s, addressed to handler %s, was also handed to handler %s"
+                               % (r["failed_step"], own, r["step"]))
     if "expected" in spec:
         got = Counter((r["step"], r["i"]) for r in rec.log if r["kind"] == "enter" and r["ev"] == "T1")
         for k, want in spec["expected"].items():
@@ -111,7 +120,7 @@ def l2_monitor(spec, rec, obs):
 
 def run(ctx):
     ctx.rule = ("L1: random reachable reducer histories (targeted and broadcast adds, waiters with requirements, "
-                "unknown targets, events nobody accepts); L2: generated fan-out / targeted-send / wait workflows on "
+                "unknown targets, events nobody accepts); L2: generated fan-out / targeted-send / wait / failing-with-handlers workflows on "
                 "the real engine under virtual time with gate-driven completion orders; distinct key = history "
                 "index with >5 ops / (template, seed, #ticks)")
     ctx.prove()
@@ -121,7 +130,8 @@ def run(ctx):
     fails, targeted_sends, done = [], 0, 0
     for i in range(n2):
         seed = rng.randrange(1 << 30)
-        tmpl = S.TEMPLATES_C02[i % len(S.TEMPLATES_C02)]
+        tmpls = S.TEMPLATES_C02 + [S.failflow]
+        tmpl = tmpls[i % len(tmpls)]
         spec, rec, obs = E.run_case(tmpl, seed)
         targeted_sends += sum(1 for r in rec.log if r["kind"] == "send" and r.get("target"))
         done += 1 if obs.done and obs.exception is None else 0
